@@ -466,6 +466,15 @@ func flows(v ssa.Value, pred func(ssa.Value) bool) bool {
 						}
 					}
 				}
+				// load of a local aggregate (struct/array literal): values stored
+				// through its field/element addresses
+				if al, isAlloc := x.X.(*ssa.Alloc); isAlloc {
+					for _, s := range subStores(al) {
+						if rec(s, depth+1) {
+							return true
+						}
+					}
+				}
 				if fv, ok := x.X.(*ssa.FreeVar); ok {
 					if b := freeVarBinding(fv); b != nil {
 						if vals, ok := storesTo(b); ok {
@@ -840,6 +849,38 @@ func withAnon(fn *ssa.Function) []*ssa.Function {
 	out := []*ssa.Function{fn}
 	for _, a := range fn.AnonFuncs {
 		out = append(out, withAnon(a)...)
+	}
+	return out
+}
+
+// subStores returns the values stored through field/element addresses derived
+// from the local aggregate a.
+func subStores(a ssa.Value) []ssa.Value {
+	var out []ssa.Value
+	if a.Referrers() == nil {
+		return nil
+	}
+	for _, r := range *a.Referrers() {
+		switch x := r.(type) {
+		case *ssa.FieldAddr:
+			if x.X == a {
+				for _, rr := range *x.Referrers() {
+					if st, ok := rr.(*ssa.Store); ok && st.Addr == ssa.Value(x) {
+						out = append(out, st.Val)
+					}
+				}
+				out = append(out, subStores(x)...)
+			}
+		case *ssa.IndexAddr:
+			if x.X == a {
+				for _, rr := range *x.Referrers() {
+					if st, ok := rr.(*ssa.Store); ok && st.Addr == ssa.Value(x) {
+						out = append(out, st.Val)
+					}
+				}
+				out = append(out, subStores(x)...)
+			}
+		}
 	}
 	return out
 }
